@@ -133,7 +133,7 @@ def wf_stack(stack):
     """documents, or the SAnnotationPop markers best_layout pushes"""
     if not stack:
         return True
-    return (isinstance(stack[-1].doc, SAnnotationPop) or wf(stack[-1].doc)) and wf_stack(stack[:-1])
+    return (isinstance(stack[-1][2], SAnnotationPop) or wf(stack[-1][2])) and wf_stack(stack[:-1])
 
 
 # -- structural size (termination measures) ------------------------------------------------------
@@ -170,7 +170,7 @@ def sizelist(ds):
 def stack_size(stack):
     if not stack:
         return 0
-    return 1 + size(stack[-1].doc) + stack_size(stack[:-1])
+    return 1 + size(stack[-1][2]) + stack_size(stack[:-1])
 
 
 # -- the fitting predicates, compositionally ------------------------------------------------------
@@ -228,7 +228,7 @@ def fits_stack(mw, smart, mnl, w, stack):
     """the rest of the line (the stack content, top first) fits into w >= 0 characters"""
     if not stack:
         return True
-    r = walk(mw, smart, mnl, stack[-1].indent, stack[-1].mode, stack[-1].doc, w)
+    r = walk(mw, smart, mnl, stack[-1][0], stack[-1][1], stack[-1][2], w)
     if r.status is GO:
         return fits_stack(mw, smart, mnl, r.w, stack[:-1])
     return r.status is FITS
